@@ -65,8 +65,10 @@ Record event := {
   e_kind : evk; e_pos : nat (* stack position of the policy, 0 = outermost; function = stack length *);
   e_attempts : Z; e_retries : Z; e_hedges : Z; e_executions : Z;
   e_out : outcome (* LastResult/LastError, or Result/Error of a done event *);
-  e_aux : Z (* scheduled delay; breaker event: old*16+new*4+tag *) ;
-  e_time : Z }.
+  e_aux : Z (* scheduled delay; breaker event: old*16+new*4+tag; function entry: IsHedge *) ;
+  e_time : Z;
+  e_start : Z (* StartTime of the execution *);
+  e_astart : Z (* AttemptStartTime of the execution copy the observer was handed; -1 where the event carries none *) }.
 
 (* ---------------- world ------------------------------------------------ *)
 
@@ -247,7 +249,18 @@ Definition snapshot (w : world) (c : nat) : outcome := (fst (cp_last (get_copy w
 
 Definition emit (w : world) (k : evk) (pos : nat) (o : outcome) (aux : Z) : world :=
   set_trace w ({| e_kind := k; e_pos := pos; e_attempts := w_attempts w; e_retries := w_retries w; e_hedges := w_hedges w;
-                  e_executions := w_executions w; e_out := o; e_aux := aux; e_time := w_now w |} :: w_trace w).
+                  e_executions := w_executions w; e_out := o; e_aux := aux; e_time := w_now w;
+                  e_start := w_start w; e_astart := -1 |} :: w_trace w).
+
+(* the newest event was handed (a copy of) execution copy c: it can read its AttemptStartTime *)
+Definition stamp (w : world) (c : nat) : world :=
+  match w_trace w with
+  | e :: t =>
+      set_trace w ({| e_kind := e_kind e; e_pos := e_pos e; e_attempts := e_attempts e; e_retries := e_retries e; e_hedges := e_hedges e;
+                      e_executions := e_executions e; e_out := e_out e; e_aux := e_aux e; e_time := e_time e;
+                      e_start := e_start e; e_astart := cp_start (get_copy w c) |} :: t)
+  | [] => w
+  end.
 
 (* the Timeout's timer callback (timeoutexecutor.go:31-47) followed by execution.Cancel *)
 Definition fire_timeout (w : world) (s : nat) : world :=
@@ -324,7 +337,7 @@ Definition bg_count_at (l : list bgrun) (t : Z) : nat := length (filter (fun b =
 Definition finish_bg (w : world) (b : bgrun) : world :=
   let w1 := set_hedge w (w_hedges w) (bg_remove b (w_bg w)) (w_hs w) in
   let w2 := set_counters w1 (w_attempts w1) (w_retries w1) (w_executions w1 + 1) in
-  let w3 := emit w2 KFnEnd (bg_pos b) (bg_out b) 0 in
+  let w3 := stamp (emit w2 KFnEnd (bg_pos b) (bg_out b) 0) (bg_copy b) in
   let hs := w_hs w3 in
   if Nat.eqb (bg_grp b) (hs_grp hs) then
     let cnt := S (hs_count hs) in
@@ -418,7 +431,7 @@ Definition all_true (o : outcome) : presult :=
   {| pr_res := fst o; pr_err := snd o; pr_done := true; pr_succ := true; pr_all := true |}.
 
 Definition ev_with_result (w : world) (c : nat) (k : evk) (pos : nat) (r : presult) : world :=
-  emit w k pos (pr_res r, match pr_err r with Some e => Some e | None => copy_err w c end) 0.
+  stamp (emit w k pos (pr_res r, match pr_err r with Some e => Some e | None => copy_err w c end) 0) c.
 
 Definition next_step (w : world) : fn_step :=
   match w_script w with s :: _ => s | [] => {| fs_out := (0, None); fs_dur := 0; fs_coop := None; fs_lag := 0 |} end.
@@ -428,7 +441,7 @@ Definition rest_script (w : world) : list fn_step := match w_script w with _ :: 
 Definition fn_layer (pos : nat) : layer := fun c w =>
   let st := next_step w in
   let w0 := set_script w (rest_script w) in
-  let w1 := emit w0 KFnStart pos (snapshot w0 c) 0 in
+  let w1 := stamp (emit w0 KFnStart pos (snapshot w0 c) 0) c in
   let '(o, w2) :=
     match fs_coop st with
     | Some co => let '(i, w') := wait w1 (fs_dur st) (Some c) in
@@ -436,7 +449,7 @@ Definition fn_layer (pos : nat) : layer := fun c w =>
     | None => let '(_, w') := wait w1 (fs_dur st) None in (fs_out st, w')
     end in
   let w3 := set_counters w2 (w_attempts w2) (w_retries w2) (w_executions w2 + 1) in
-  (all_true o, emit w3 KFnEnd pos o 0).
+  (all_true o, stamp (emit w3 KFnEnd pos o 0) c).
 
 (* retry *)
 Definition get_rstate (w : world) (pos : nat) : rstate :=
@@ -493,7 +506,7 @@ Fixpoint retry_loop (fuel : nat) (cfg : retry_cfg) (pos : nat) (inner : layer) (
               | None =>
                   let w3 := set_copy_last w2 c (pr_out r2) in
                   let d := retry_delay cfg w3 in
-                  let w4 := emit w3 KRetryScheduled pos (pr_res r2, match pr_err r2 with Some e => Some e | None => copy_err w3 c end) d in
+                  let w4 := stamp (emit w3 KRetryScheduled pos (pr_res r2, match pr_err r2 with Some e => Some e | None => copy_err w3 c end) d) c in
                   let '(_, w5) := wait w4 d (Some c) in
                   (* InitializeRetry *)
                   match is_canceled w5 c with
@@ -542,7 +555,7 @@ Definition limiter_layer (pos inst : nat) (maxwait : Z) (inner : layer) : layer 
   let '(wt, s') := lim_acquire cfg s (w_now w - base) 1 maxwait in
   let w1 := set_insts w (w_breakers w) (upd inst (fun p => (fst p, s')) (w_limiters w)) (w_bulkheads w) (w_caches w) in
   if wt =? -1 then
-    (failure_result ERate, emit w1 KRateExceeded pos (snapshot w1 c) 0)
+    (failure_result ERate, stamp (emit w1 KRateExceeded pos (snapshot w1 c) 0) c)
   else
     let '(i, w2) := wait w1 wt (Some c) in
     if i then
@@ -554,7 +567,7 @@ Definition bulkhead_layer (pos inst : nat) (maxwait : Z) (inner : layer) : layer
   let '(cap, held) := nth inst (w_bulkheads w) (0, 0) in
   let setheld (w : world) (h : Z) :=
     set_insts w (w_breakers w) (w_limiters w) (upd inst (fun p => (fst p, h)) (w_bulkheads w)) (w_caches w) in
-  let full (w : world) := (failure_result EFull, emit w KFull pos (snapshot w c) 0) in
+  let full (w : world) := (failure_result EFull, stamp (emit w KFull pos (snapshot w c) 0) c) in
   match copy_err w c with
   | Some e => (failure_result e, w)
   | None =>
@@ -633,7 +646,7 @@ Definition cache_layer (pos inst : nat) (cfg : cache_cfg) (inner : layer) : laye
   match hit with
   | Some v => (all_true (v, None), emit w KCacheHit pos (v, None) 0)
   | None =>
-      let w1 := emit w KCacheMiss pos (snapshot w c) 0 in
+      let w1 := stamp (emit w KCacheMiss pos (snapshot w c) 0) c in
       let '(r, w2) := inner c w1 in
       let should := (match ca_conds cfg with [] => true | _ => false end && negb (has_err (pr_out r)))
                     || applies_to_any (ca_conds cfg) (pr_out r) in
@@ -679,11 +692,11 @@ Definition hedge_start (pos total : nat) (c k : nat) (w : world) : world :=
             | S _ =>
                 let w' := set_hedge (set_counters w2 (w_attempts w2 + 1) (w_retries w2) (w_executions w2))
                                     (w_hedges w2 + 1) (w_bg w2) (w_hs w2) in
-                emit w' KHedge pos (snapshot w' c') 0
+                stamp (emit w' KHedge pos (snapshot w' c') 0) c'
             end in
   let st := next_step w3 in
   let w4 := set_script w3 (rest_script w3) in
-  let w5 := emit w4 KFnStart total (snapshot w4 c') (match k with O => 0 | S _ => 1 end) in
+  let w5 := stamp (emit w4 KFnStart total (snapshot w4 c') (match k with O => 0 | S _ => 1 end)) c' in
   let b := {| bg_grp := hs_grp (w_hs w5); bg_idx := k; bg_copy := c'; bg_pos := total; bg_finish := w_now w5 + fs_dur st;
               bg_out := fs_out st; bg_coop := match fs_coop st with Some o => Some (o, fs_lag st) | None => None end |} in
   refresh_bg (set_hedge w5 (w_hedges w5) (b :: w_bg w5) (w_hs w5)).
